@@ -9,6 +9,14 @@ ALL = ["C%02d" % i for i in range(1, 21)]
 
 # id -> dict(level, technique, text, note, design_ref, engine)
 CHECKS = {
+    "C11": dict(
+        level="exploration",
+        engine="E5-crash",
+        technique="bounded-exhaustive enumeration of recursive program shapes x recursion limits x stack sizes x build profiles with a process-level oracle in supervised child processes",
+        text="Recursive shapes are enumerated combinatorially: every macro cycle of length 1..2 (thorough 3) whose every edge is wrapped by one of 8 scoped constructs, x 3 per-frame work decorations; every include cycle of length 1..2 (3) over 5 placements; import cycles at top level, inside macros and through macro+include+import; recursive loops over 10 000-deep data, self-similar data and inside macros; super() chains of 10..1200 templates; block self-calls (direct, mutual, through a macro) and caller/higher-order/alias/default-argument/nested-definition recursion. Each shape runs with recursion_limit in {1,2,3,7,50,250,499,500} on a 2 MiB thread and on the main thread of an opt-level-0 build (thorough: also the checked-release build and every limit 1..=500 for the smaller families, 1.7e5 cases). Unbounded shapes must end with an error whose chain says 'recursion limit exceeded'; no case may end in a signal, abort, panic or hang.",
+        note="Per-level native stack cost depends on the compiler and profile: the statement is re-established for this toolchain's opt-level-0 and release builds. The 10 000-deep context value is leaked, not dropped (host drop glue recursion is not the engine's).",
+        design_ref="2/C11",
+    ),
     "C01": dict(
         level="exploration",
         engine="E5-crash",
